@@ -126,6 +126,10 @@ def gen_cases(ctx, n):
                 c["abort_after"] = [r.randint(0, total) for _ in range(nch)]
             if r.random() < 0.5:
                 c["inspect_at"] = r.randint(0, total)
+            elif total > 0 and r.random() < 0.6:
+                # flushes in the middle of the run (warmup and sampling phase): what is finally
+                # returned must not depend on them
+                c["flush_at"] = sorted(set(r.randint(0, total) for _ in range(r.randint(1, 4))))
         add(c)
     return cases
 
@@ -801,6 +805,8 @@ def run(ctx):
                     d_, b_ = fn(c, o, ch, h, fin_m[ch], real)
                     diffs += d_
                     bad += b_
+            if o.get("flush_errors"):
+                bad.append((None, "flush failed: %s" % o["flush_errors"][0][:200]))
             insp = o.get("inspect")
             if insp:
                 if insp.get("status") != "ok":
